@@ -284,12 +284,12 @@ struct Numbering;
 impl Numbering {
     fn dims() -> [u64; 6] {
         // enc, nsec, nph, placement, strndx choice, encoding variant
-        [4, 8, 7, 4, 4, 6]
+        [4, 8, 7, 4, 4, 7]
     }
 }
 impl Space for Numbering {
     fn name(&self) -> String {
-        "generated files: section count in {0,1,2,3,0xfeff,0xff00,0xff01,0xff20} x program header count in {0,1,2,0xfffe,0xffff,0x10000,0x10010} x table placement {ph-then-sh, sh-then-ph, sh touching EOF, sh one byte past EOF} x name-table index {0,1,n-1,beyond} x header encoding {reference writer, e_shnum=0 forced, PN_XNUM forced, SHN_XINDEX forced, shdr[0] fields zeroed, shdr[0] fields off by one} x 4 encodings; both parsers".into()
+        "generated files: section count in {0,1,2,3,0xfeff,0xff00,0xff01,0xff20} x program header count in {0,1,2,0xfffe,0xffff,0x10000,0x10010} x table placement {ph-then-sh, sh-then-ph, sh touching EOF, sh one byte past EOF} x name-table index {0,1,n-1,beyond} x header encoding {reference writer, e_shnum=0 forced, PN_XNUM forced, SHN_XINDEX forced, shdr[0] fields zeroed, shdr[0] fields off by one, raw e_shstrndx in the reserved range with a different shdr[0].sh_link} x 4 encodings; both parsers".into()
     }
     fn size(&self) -> u64 {
         product(&Self::dims())
@@ -333,6 +333,12 @@ impl Space for Numbering {
                 e.sh0_size = 0;
                 e.sh0_info = 0;
                 e.sh0_link = 0;
+            }
+            6 => {
+                // the raw index is written even when it lies in the reserved range 0xff00..=0xfffe
+                // (only 0xffff redirects to shdr[0].sh_link); shdr[0].sh_link holds something else
+                e.e_shstrndx = strndx;
+                e.sh0_link = 1;
             }
             _ => {
                 if e.e_shnum == 0 {
